@@ -53,7 +53,9 @@ VOCAB = ['foo', 'bar', 'Baz', 'snake_case', 'a_b_c', '_', 'x_', '__init__ed', '5
          '1', '12', '2024', '1.5', '3.', '10)', 'v1.2.3', '1)x', '.', '..', '...', '. ', ') ', 'e.g.', 'i.e.', ':', ';', ',', '!', '!x', '?', '"q"', "'s",
          'é', 'ñandú', '中文', 'ß', '“q”', '«x»', '…', '—', '·', 'x·y', '{', '}', '{x}', '/', 'a/b', '//', ' \\', 'C:\\dir'.replace('\\', '/'), '`'.replace('`', "'"),
          '1.x', '2)y', 'No.', '(1)', 'a.', 'b)', '#1', '##x', '+1', '-x', '*x'.replace('*', '+'), 'x=y', 'a = b', '3 > 2', '2 < 3 ok', 'a & b', 'R&D;x'.replace(';', ','),
-         'http://x.y/z', 'www.x.y', 'a@b.c', 'x: y', 'k=v&w=z', 'end.']
+         'http://x.y/z', 'www.x.y', 'a@b.c', 'x: y', 'k=v&w=z', 'end.',
+         # a setext underline is a run of ONE of the two characters: mixed runs alone on a line are paragraph text
+         '=-', '-=', '=--', '--=', '=-=']
 
 PUNCT = set('!"#$%&\'()*+,-./:;<=>?@[\\]^_`{|}~')
 ENTITY = re.compile(r'&(#[0-9]{1,7};|#[xX][0-9a-fA-F]{1,6};|[A-Za-z][A-Za-z0-9]{0,31};)')
@@ -213,7 +215,7 @@ def units(ctx):
 
 def explore(ctx, seeds):
     rng = ctx.rng('paragraphs')
-    fixed = [['. foo'], [') bar'], ['a | b', 'c | d'], ['foo', '= ='], ['1986. A great year'], ['2) x'], ['a_b_ c_d'], ['*'], ['x * y * z'],
+    fixed = [['foo', '=-'], ['. fo', '=----'], ['foo', '--='], ['. foo'], [') bar'], ['a | b', 'c | d'], ['foo', '= ='], ['1986. A great year'], ['2) x'], ['a_b_ c_d'], ['*'], ['x * y * z'],
              ['AT&T & co'], ['[unpaired'], ['a ] b [ c'], ['#hashtag'], ['+1 for this'], ['-- dash'], ['= x'], ['snake_case_name and _x'],
              ['1.x', '2)y'], ['foo', '. bar'], ['foo', ') bar']]
     n_gen = 0
